@@ -493,7 +493,7 @@ pub fn typed_tag_as(rec: &mut Rec, p: &str, tag: &Generic, kind: u32, opts: &Mbi
                                 let q = format!("{p}.s{j}");
                                 rec.t.push(q.clone(), Val::Ok);
                                 u!(rec, q, "raw_type", s.section_type_raw());
-                                rec.call(format!("{q}.type"), || Val::Txt(format!("{:?}", s.section_type())));
+                                rec.call(format!("{q}.type"), || Val::U(s.section_type() as u32 as u64));
                                 u!(rec, q, "flags", s.flags().bits());
                                 rec.call(format!("{q}.allocated"), || Val::B(s.is_allocated()));
                                 u!(rec, q, "addr", s.start_address());
